@@ -93,6 +93,13 @@ class World:
                         kw["nproj"] = op["nproj"]
                     sampler = ACHRSampler(self.model, **kw) if m == "achr" else OptGPSampler(self.model, processes=p, **kw)
                     df = sampler.sample(n, fluxes=op.get("fluxes", True))
+                    if op.get("again"):
+                        # the sampler object carries state (centre, sample count) into its next call: those samples count too
+                        import pandas as pd
+
+                        df2 = sampler.sample(op["again"], fluxes=op.get("fluxes", True))
+                        self.stats["probe:second_call_on_same_sampler"] += 1
+                        df = pd.concat([df, df2], ignore_index=True)
         except Exception as e:
             raised = e
         finally:
@@ -119,6 +126,9 @@ class World:
         fluxes = op.get("fluxes", True) or op.get("via") == "function"
         rids = [r.id for r in self.model.reactions]
         want_n = n if (m == "achr" or p <= 1) else int(math.ceil(n / p)) * p
+        if op.get("again") and op.get("via") != "function":
+            a2 = op["again"]
+            want_n += a2 if (m == "achr" or p <= 1) else int(math.ceil(a2 / p)) * p
         if df.shape[0] != want_n:
             raise Violation("sample_shape", {"what": "number of samples", "got": int(df.shape[0]), "want": want_n}, culprit=op)
         cols = [str(c) for c in df.columns]
@@ -212,6 +222,8 @@ def gen_ops(rng, W):
               "nproj": rng.choice([None, 1, 7]), "seed": rng.choice([None, rng.randint(1, 10 ** 6), rng.randint(1, 10 ** 6)]),
               "fluxes": rng.random() < 0.7, "via": rng.choice(["object", "object", "function"]),
               "processes": rng.choice([1, 1, 2, 3, 4]) if m == "optgp" else 1, "perturb_col": rng.randint(0, 5)}
+        if rng.random() < 0.3:
+            op["again"] = rng.choice([1, 2, 4])
         yield op
         if rng.random() < 0.25:
             # a warm-up solve fails (numerically hard models do that): the sampler skips it - the samples must stay feasible
